@@ -1,2 +1,101 @@
-(* placeholder *)
+(* The per-code-point law behind C16_text_roundtrip:
+       for every Unicode scalar value c, feeding the UTF-8 automaton the bytes
+       utf8_enc1 c, starting in the initial state, emits exactly [c] and is back
+       in the initial state.
+   The domain is finite (0 .. 0x10FFFF without the surrogates: 1,112,064
+   values), so the law is established by an exhaustive sweep: 17 planes of
+   2^16 code points each, every plane one vm_compute, lifted to a universally
+   quantified statement by [range_all_spec]. *)
 From TT Require Import Lib.Base Model.Utf8.
+Local Open Scope N_scope.
+
+Definition cp_ok (c : N) : bool :=
+  negb (is_scalar c)
+  || match feed utf8 U0 (utf8_enc1 c) with
+     | Some (U0, [d]) => d =? c
+     | _ => false
+     end.
+
+(* f holds on base .. base + 2^k - 1 *)
+Fixpoint range_all (k : nat) (base : N) (f : N -> bool) : bool :=
+  match k with
+  | O => f base
+  | S k' => range_all k' base f && range_all k' (base + 2 ^ N.of_nat k') f
+  end.
+
+Lemma range_all_spec k : forall base f, range_all k base f = true ->
+  forall c, base <= c < base + 2 ^ N.of_nat k -> f c = true.
+Proof.
+  induction k as [|k IH]; intros base f H c Hc.
+  - simpl in *. change (2 ^ N.of_nat 0) with 1 in Hc. assert (c = base) by lia. subst. exact H.
+  - cbn [range_all] in H. apply andb_true_iff in H as [H1 H2].
+    assert (E : 2 ^ N.of_nat (S k) = 2 ^ N.of_nat k + 2 ^ N.of_nat k).
+    { rewrite Nat2N.inj_succ, N.pow_succ_r'. lia. }
+    rewrite E in Hc.
+    destruct (N.lt_ge_cases c (base + 2 ^ N.of_nat k)) as [L|G].
+    + apply (IH base f H1). lia.
+    + apply (IH _ f H2). lia.
+Qed.
+
+Definition plane (i : N) : bool := range_all 16 (i * 65536) cp_ok.
+
+Lemma plane_00 : plane 0 = true. Proof. vm_compute. reflexivity. Qed.
+Lemma plane_01 : plane 1 = true. Proof. vm_compute. reflexivity. Qed.
+Lemma plane_02 : plane 2 = true. Proof. vm_compute. reflexivity. Qed.
+Lemma plane_03 : plane 3 = true. Proof. vm_compute. reflexivity. Qed.
+Lemma plane_04 : plane 4 = true. Proof. vm_compute. reflexivity. Qed.
+Lemma plane_05 : plane 5 = true. Proof. vm_compute. reflexivity. Qed.
+Lemma plane_06 : plane 6 = true. Proof. vm_compute. reflexivity. Qed.
+Lemma plane_07 : plane 7 = true. Proof. vm_compute. reflexivity. Qed.
+Lemma plane_08 : plane 8 = true. Proof. vm_compute. reflexivity. Qed.
+Lemma plane_09 : plane 9 = true. Proof. vm_compute. reflexivity. Qed.
+Lemma plane_10 : plane 10 = true. Proof. vm_compute. reflexivity. Qed.
+Lemma plane_11 : plane 11 = true. Proof. vm_compute. reflexivity. Qed.
+Lemma plane_12 : plane 12 = true. Proof. vm_compute. reflexivity. Qed.
+Lemma plane_13 : plane 13 = true. Proof. vm_compute. reflexivity. Qed.
+Lemma plane_14 : plane 14 = true. Proof. vm_compute. reflexivity. Qed.
+Lemma plane_15 : plane 15 = true. Proof. vm_compute. reflexivity. Qed.
+Lemma plane_16 : plane 16 = true. Proof. vm_compute. reflexivity. Qed.
+
+Lemma plane_covers i : plane i = true -> forall c, i * 65536 <= c < (i + 1) * 65536 -> cp_ok c = true.
+Proof.
+  intros H c Hc. apply (range_all_spec 16 _ _ H).
+  change (2 ^ N.of_nat 16) with 65536. lia.
+Qed.
+
+(* all code points: above 0x10FFFF nothing is a scalar value *)
+Theorem cp_ok_all : forall c, cp_ok c = true.
+Proof.
+  intro c.
+  destruct (N.lt_ge_cases c 0x110000) as [L|G].
+  - assert (Hi : c / 65536 < 17) by (apply N.div_lt_upper_bound; lia).
+    pose proof (N.div_mod c 65536 ltac:(lia)) as Hd.
+    pose proof (N.mod_lt c 65536 ltac:(lia)) as Hm.
+    assert (Hc : forall i, c / 65536 = i -> i * 65536 <= c < (i + 1) * 65536) by (intros i <-; lia).
+    remember (c / 65536) as i eqn:Ei.
+    assert (Hcases : i = 0 \/ i = 1 \/ i = 2 \/ i = 3 \/ i = 4 \/ i = 5 \/ i = 6 \/ i = 7 \/ i = 8 \/ i = 9 \/
+                     i = 10 \/ i = 11 \/ i = 12 \/ i = 13 \/ i = 14 \/ i = 15 \/ i = 16) by lia.
+    specialize (Hc i eq_refl).
+    repeat (destruct Hcases as [->|Hcases]); try subst i;
+      [ apply (plane_covers _ plane_00) | apply (plane_covers _ plane_01) | apply (plane_covers _ plane_02)
+      | apply (plane_covers _ plane_03) | apply (plane_covers _ plane_04) | apply (plane_covers _ plane_05)
+      | apply (plane_covers _ plane_06) | apply (plane_covers _ plane_07) | apply (plane_covers _ plane_08)
+      | apply (plane_covers _ plane_09) | apply (plane_covers _ plane_10) | apply (plane_covers _ plane_11)
+      | apply (plane_covers _ plane_12) | apply (plane_covers _ plane_13) | apply (plane_covers _ plane_14)
+      | apply (plane_covers _ plane_15) | apply (plane_covers _ plane_16) ]; exact Hc.
+  - unfold cp_ok. replace (is_scalar c) with false; [reflexivity|].
+    unfold is_scalar. symmetry. apply orb_false_iff; split.
+    + apply N.ltb_ge. lia.
+    + apply andb_false_iff. right. apply N.leb_gt. lia.
+Qed.
+
+(* the law in the form the string induction uses *)
+Theorem utf8_enc1_decodes : forall c, is_scalar c = true ->
+  feed utf8 U0 (utf8_enc1 c) = Some (U0, [c]).
+Proof.
+  intros c Hs. pose proof (cp_ok_all c) as H. unfold cp_ok in H. rewrite Hs in H. simpl in H.
+  destruct (feed utf8 U0 (utf8_enc1 c)) as [[s out]|]; [|discriminate].
+  destruct s; try discriminate.
+  destruct out as [|d [|? ?]]; try discriminate.
+  apply N.eqb_eq in H. subst. reflexivity.
+Qed.
